@@ -145,6 +145,31 @@ def gen_world(rng, realistic):
     return spec
 
 
+ADJ_RATIOS = [(1, 2), (3, 4), (9, 10), (11, 10), (1, 1)]
+
+
+def add_adjustment(spec, rng):
+    """Adjusted closes that differ from the closes (splits / dividends): a constant ratio per asset.  Real two-world runs only."""
+    c = spec["cfg"]
+    c["adj"] = {}
+    for a, bars in c["market"].items():
+        n, d = rng.choice(ADJ_RATIOS)
+        c["adj"][a] = dict((str(day), oc[1] * n // d) for day, oc in bars.items())
+
+
+def _burn_in_past_first_bar(spec, late):
+    """Make `spec` (signal-driven, asset `late` in the universe from the start but without data at first) trade daily from the
+    close of the late asset's first bar on: during the burn-in its price is MISSING and the signals are fed exactly that;
+    the first rebalances then look back over those days.  False if the calendar leaves no room."""
+    c = spec["cfg"]
+    first = min(int(d) for d in c["market"][late])
+    if not (c["start"] // 1440 < first < c["end"] // 1440 - 1):
+        return False
+    c["sched"], c["burn"] = "daily", first * 1440 + 1260
+    spec["lookback"] = 3
+    return True
+
+
 def twin_of(spec, rng):
     """Second world: identical up to the cut day T, rewritten / removed afterwards."""
     c = spec["cfg"]
@@ -166,10 +191,15 @@ def twin_of(spec, rng):
                     o, cl = bars[d]
                     lv = sr.PRICE_LEVELS if max(o, cl) <= 16000 else [x * 10 for x in range(500, 25000, 777)]
                     bars[d] = [rng.choice(lv + [0]), rng.choice(lv + [0])]
+                    if "adj" in c2:
+                        n, dd = rng.choice(ADJ_RATIOS)
+                        c2["adj"][a][str(d)] = rng.choice([0, bars[d][1] * n // dd, bars[d][1]])   # blank / another ratio / none
         if mode == "add":
             for d in range(T + 1, hi + 1):
                 if sr.is_bday(d) and str(d) not in bars and d not in bars:
                     bars[str(d)] = [rng.choice(sr.PRICE_LEVELS), rng.choice(sr.PRICE_LEVELS)]
+                    if "adj" in c2:
+                        c2["adj"].setdefault(a, {})[str(d)] = rng.choice([0, bars[str(d)][1] // 2, bars[str(d)][1]])
         if not bars:
             del c2["market"][a]           # removed altogether: no file
     s2 = dict(spec)
@@ -439,6 +469,8 @@ def run(prop, replay_file=None):
             n = 480 if t == "quick" else 30000
             while len(jobs) < n:
                 spec = gen_world(rng, realistic=(len(jobs) % 3 == 2))
+                if len(jobs) % 4 == 1:
+                    add_adjustment(spec, rng)
                 s2, T = twin_of(spec, rng)
                 if s2 is None:
                     continue
@@ -483,6 +515,17 @@ def run(prop, replay_file=None):
         specs = [f5_spec(rng), f5_spec(rng)] + [boundary_spec(rng) for _ in range(8 if t == "quick" else 80)]
         while len(specs) < n:
             specs.append(gen_world(rng, realistic=(len(specs) % 2 == 0)))
+        # ... plus configurations in which an asset's data start only after the backtest has begun while something CONSUMES its
+        # missing price (a signal over a universe it belongs to from the start, or a fixed weight on it - then the run must
+        # fail): a missing price is missing whatever the objects involved have answered before
+        rng_late = random.Random(sd * 7907 + 1818)
+        for _ in range(4 if t == "quick" else 40):
+            for _try in range(400):
+                sp = gen_world(rng_late, realistic=False)
+                la = sp.get("late_start")
+                if la and sp["alpha"] != "config" and _burn_in_past_first_bar(sp, la):
+                    specs.append(sp)
+                    break
     for k, spec in enumerate(specs):
         if k % 4 == 1 and not replay_file:
             spec["cfg"]["split_orders"] = True         # several orders on one side of one asset in a single update
